@@ -16,17 +16,21 @@ Proved for every hit list, window, mode, comparator (strict order):
 * `rescoreSpec_outside_unchanged` — in the spec the hits behind the window follow unchanged;
 * `rescore_eq_spec_partial` — the code equals the spec **when no window hit is rejected**;
 * `mech_rescore_eq_spec_partial` — for the whole request (`search` vs `Spec.search`): same page,
-  cursor and total when additionally the window fits into the fetched `max(limit,candidate_size)+1`
-  hits (sort not the per-segment fast path, `explain` off, no collapse).
+  cursor and total when no window hit is rejected (sort not the per-segment fast path, `explain`
+  off, no collapse, `window_size ≤ MAX_CANDIDATE_SIZE`).  Since /repo 089be57 the fetch depth is
+  `max(limit, candidate_size, window_size) + 1`, so "the window fits into the fetched hits" is no
+  longer a hypothesis but a consequence of the definition.
 
 Full statement (not a theorem of the code):
   `∀ hits w, rescore o lt mode explain w hits = rescoreSpec o lt mode explain w hits`
 negative witness `rescore_slide_witness`: after a rejection the code sorts the first `w` of what
 is left, which pulls a never-rescored hit in front of a rescored one.
 
-The other gap is before `rescore_hits`: only `max(limit, candidate_size)+1` hits are fetched
-(`SL.Post.fetch`), so a larger window is cut: `window_beyond_fetched_witness`; and removals are
-not refilled: `page_short_after_drops_witness`.
+The other gap is before `rescore_hits`.  Repaired (/repo 089be57): only
+`max(limit, candidate_size)+1` hits were fetched, so a larger window was cut —
+`legacy_window_beyond_fetched_witness` (about `legacySearch`) documents it, `window_fetched_repaired`
+shows the same input on the current model.  Still open: `min_score` removals are not refilled
+from beyond the fetched hits: `page_short_after_drops_witness`.
 -/
 namespace SL.Post
 variable {S : Type}
@@ -234,13 +238,15 @@ theorem length_append_take_gt {α : Type} (A T : List α) (n m : Nat) (h : n < A
   omega
 
 /-- the code's page equals the statement's page when scores are computed, the sort is not the
-score fast path, `explain` is off, nothing is collapsed, the window fits into the fetched hits
-and no window hit is rejected -/
+score fast path, `explain` is off, nothing is collapsed and no window hit is rejected.  The
+former hypothesis "the window fits into the fetched hits" is gone: since /repo 089be57 the fetch
+depth is `max(limit, candidate_size, window_size) + 1`, so it follows from the definition for
+every `window_size ≤ MAX_CANDIDATE_SIZE`. -/
 theorem mech_rescore_eq_spec_partial (o : ScoreOps S) (r : Req S) (matched : List (Hit S))
     (rr : RescoreReq) (hrr : r.rescore = some rr)
     (hsc : scoresComputed r = true) (hnf : isFast r.plan = false) (hne : r.explain = false)
     (hnc : r.collapse = none) (hret : r.returnHits = true) (hlim : r.limit ≤ maxCandidate)
-    (hw : rr.window ≤ topKOf r)
+    (hwin : rr.window ≤ maxCandidate)
     (hnr : ∀ h ∈ (isort (klt o r.plan) (afterCursor (klt o r.plan) r.cursor matched)).take rr.window,
       h.resc ≠ .rejected) :
     (search o r matched).hits = (Spec.search o r matched).hits ∧
@@ -252,10 +258,19 @@ theorem mech_rescore_eq_spec_partial (o : ScoreOps S) (r : Req S) (matched : Lis
   have hk : r.limit < topKOf r := by
     unfold topKOf
     rw [if_pos hret]
-    have : r.limit ≤ min (max (r.cand.getD r.limit) r.limit) maxCandidate := by
+    have : r.limit ≤ min (max (max (r.cand.getD r.limit) r.limit) (windowOf r)) maxCandidate := by
       apply Nat.le_min.mpr
-      exact ⟨Nat.le_max_right _ _, hlim⟩
+      exact ⟨Nat.le_trans (Nat.le_max_right _ _) (Nat.le_max_left _ _), hlim⟩
     omega
+  -- since /repo 089be57 the fetch depth covers the window
+  have hw : rr.window ≤ topKOf r := by
+    have hwo : windowOf r = rr.window := by unfold windowOf; rw [hrr]
+    unfold topKOf
+    rw [if_pos hret, hwo]
+    have : rr.window ≤ min (max (max (r.cand.getD r.limit) r.limit) rr.window) maxCandidate := by
+      apply Nat.le_min.mpr
+      exact ⟨Nat.le_max_right _ _, hwin⟩
+    exact Nat.le_succ_of_le this
   -- abbreviations
   generalize hL : isort (klt o r.plan) (afterCursor (klt o r.plan) r.cursor matched) = L at hnr
   generalize hK : topKOf r = k at hw hk
@@ -346,12 +361,19 @@ private def baseReq : Req Int where
 private def matchedW : List (Hit Int) :=
   [mk 0 10 .noMatch, mk 1 9 .noMatch, mk 2 8 .noMatch, mk 3 7 .noMatch, mk 4 6 (.val 10), mk 5 5 .noMatch]
 
-/-- **negative witness** (fetch depth): limit 3, window 20; the hit at initial rank 5 is boosted
-×10 by the rescore query.  The statement's response starts with it; the code fetches 4 hits, so
-it is neither rescored nor returned -/
-theorem window_beyond_fetched_witness :
-    ((search intOps baseReq matchedW).hits.map fun p => (p.1.doc, p.1.score)) = [(0, 10), (1, 9), (2, 8)] ∧
+/-- **legacy negative witness** (fetch depth before /repo 089be57): limit 3, window 20; the hit
+at initial rank 5 is boosted ×10 by the rescore query.  The statement's response starts with it;
+the old code fetched 4 hits, so it was neither rescored nor returned -/
+theorem legacy_window_beyond_fetched_witness :
+    ((legacySearch intOps baseReq matchedW).hits.map fun p => (p.1.doc, p.1.score)) = [(0, 10), (1, 9), (2, 8)] ∧
     ((Spec.search intOps baseReq matchedW).hits.map fun p => (p.1.doc, p.1.score)) = [(4, 60), (0, 10), (1, 9)] := by
+  decide
+
+/-- the same request on the repaired code: the whole window is fetched and the response is the
+statement's -/
+theorem window_fetched_repaired :
+    ((search intOps baseReq matchedW).hits.map fun p => (p.1.doc, p.1.score)) = [(4, 60), (0, 10), (1, 9)] ∧
+    (search intOps baseReq matchedW).next.isSome = (Spec.search intOps baseReq matchedW).next.isSome := by
   decide
 
 /-- non-vacuity of `mech_rescore_eq_spec_partial`: ascending score sort (not the fast path),
